@@ -95,7 +95,8 @@ def main():
             out.update(status="error", desc="unknown mode")
     except Exception as e:
         out.update(status="error", desc=f"{type(e).__name__}: {e}", tb=traceback.format_exc())
-    json.dump(out, sys.stdout)
+    sys.stdout.write("\n@@PYVC-JSON@@\n")     # (code under test may print to stdout)
+    json.dump(out, sys.stdout, default=str)
 
 
 if __name__ == "__main__":
